@@ -8,7 +8,8 @@
 (*  analysis     what the real analyzer decided: shardable, by, labels     *)
 (*  member[k]    shard indices whose real ShardMatcher accepted series k   *)
 (*               (for the ShardInfo the real querySharder sent downstream) *)
-(*  sharded / unsharded   [err: bool, out: [[ls: {..}, v: "<value>"]]]     *)
+(*  sharded / unsharded   [err: bool, out: [[ls: {..}, v: "<t=value ...>",  *)
+(*               v0: "<first value>", n: number of samples]]]              *)
 (*               results through the tripperware with / without sharding   *)
 (*  subreqs      number of downstream requests the sharded run produced    *)
 (* Values are strings (the engine's float formatting) so that any program  *)
@@ -56,7 +57,8 @@ Drift(e) ==
     IN \/ IsShardable(an) # e.analysis.shardable
        \/ (IsShardable(an) /\ (an.by # e.analysis.by \/ an.ls # LabelNamesOf(e.analysis)))
        \/ u.err # e.unsharded.err
-       \/ (~u.err /\ { [ls |-> s.ls, v |-> ToString(s.v)] : s \in u.out } # OutSet(e.unsharded))
+       \/ (~u.err /\ { [ls |-> s.ls, v |-> ToString(s.v)] : s \in u.out }
+                      # { [ls |-> s.ls, v |-> s.v0] : s \in OutSet(e.unsharded) })
 
 VARIABLE l
 TraceInit == l = 1
